@@ -181,6 +181,50 @@ def gen_histories_c20(tier, rnd):
 
 # ------------------------------------------------------------------ C11 / C16
 
+def twins(s):
+    """Strings that an implementation which normalises keys (case folding, path clean-up, unescaping, trimming)
+    might wrongly identify with s.  Every pair (s, twin) names two DIFFERENT resources."""
+    import unicodedata
+    cand = [s, './' + s, './/' + s, s + '/', '/' + s, s.upper(), s.lower(), s.swapcase(), ' ' + s, s + ' ', s + '\\',
+            ''.join('\\' + c if c in '*?[' else c for c in s), ''.join('\\' + c for c in s), s.replace('*', '?'),
+            unicodedata.normalize('NFD', s), s + '\u0301', s + s, s[:-1] if len(s) > 1 else s + 'x']
+    out = []
+    for c in cand:
+        if c != s and c not in out:
+            out.append(c)
+    return out
+
+
+TWIN_BASES = ['out', 'a*', 'x[1]', 'Ab?', 'é.txt', 'log.0']
+
+
+def twin_trees():
+    """Two resources whose keys differ only up to a plausible normalisation, in one expression, in both orders."""
+    trees = []
+    for b in TWIN_BASES:
+        for t in twins(b):
+            for x, y in [(b, t), (t, b)]:
+                for m in ['Name', 'InsensitiveName', 'Path', 'InsensitivePath']:
+                    trees.append('(Or (T (%s %s)) (T (%s %s)))' % (m, sx_str(x), m, sx_str(y)))
+                trees.append('(And (T (Name %s)) (And (A (FilePrint %s)) (And (T (Path %s)) (A (FilePrintNull %s)))))' % (sx_str(x), sx_str('o'), sx_str(y), sx_str('o')))
+                for a in ['FilePrint', 'FilePrintNull']:
+                    trees.append('(List (A (%s %s)) (A (%s %s)))' % (a, sx_str(x), a, sx_str(y)))
+                trees.append('(Or (And (T (Name %s)) (A (FilePrint %s))) (And (T (Name %s)) (A (FilePrint %s))))' % (sx_str('a'), sx_str(x), sx_str('b'), sx_str(y)))
+                trees.append('(List (A (FilePrintFormatted %s (# (Fld Name) (Spc Newline)))) (A (FilePrintFormatted %s (# (Fld Name) (Spc Newline)))))' % (sx_str(x), sx_str(y)))
+    return trees
+
+
+def twin_texts():
+    """The same through the parser (strings a bare word can spell)."""
+    texts = []
+    for b in ['out.txt', 'log', 'a*']:
+        for t in ['./' + b, './/' + b, b + '/', b.upper(), '\\' + b if False else b + '.', 'X' + b]:
+            texts.append("-name a -fprint %s -o -name b -fprint %s" % (b, t))
+            texts.append("-fprintf %s '%%p\\n' -fprintf %s '%%p\\n' -fprintf %s '%%p\\n'" % (t, b, './' + t))
+            texts.append("-name '%s' -o -name '%s' -o -iname '%s'" % (b, t, b))
+    return texts
+
+
 def gen_resources(tier, rnd):
     lines = []
     n = 2000 if tier == 'quick' else 20000
@@ -225,6 +269,8 @@ def gen_resources(tier, rnd):
     for e in ENDINGS:
         lines.append(T('(Or (A Print) (A (PrintFormatted (# (Fld Name) %s))))' % e))
         lines.append(T('(A (PrintFormatted (# (Lit %s) (Fld Name) %s)))' % (sx_str('p '), e)))
+    # resources whose keys differ only up to a plausible normalisation (./ prefix, case, escaping, trimming, NFD)
+    lines += [T(t) for t in twin_trees()]
     lines = vary_options(lines, rnd)
     return lines, {'rule': '%d expressions with 0..13 (every 50th: 100..300) matchers and printers in random first-occurrence order, with repeats, case-only differences, pattern/literal pairs, file and stdout destinations, in plain and framed mode; non-trivial = at least two resources' % n,
                    'streams': {'resources': len(lines)}}
@@ -297,6 +343,8 @@ def gen_actions(tier, rnd):
         for l in leaves[1:]:
             tree = '(And %s %s)' % (tree, l)
         lines.append(T(tree))
+    # destinations whose names differ only up to a plausible normalisation: two table entries, two tags
+    lines += [T(t) for t in twin_trees() if 'FilePrint' in t]
     lines = vary_options(lines, rnd)
     # every octal escape value as the last element of a stdout format (is it the newline escape or not?)
     for v in range(0, 512):
@@ -327,6 +375,9 @@ def gen_histories_c15(tier, rnd):
     # run options, leading and misplaced, alone and combined: what one call registered must not change another
     texts += ['-name core -threads 4', '-type f -depth', '-name a -depth -threads 4', '-threads 2 -name b', '-depth -name c -threads 8',
               '( -name d -o -threads 3 ) -print', '-name e -threads 4 -fprint out', '! -depth -name f', '-threads 1 -depth -print0']
+    # destinations / patterns that differ only up to a plausible normalisation (a table keyed by the cleaned-up name
+    # would make the answer depend on hash order)
+    texts += twin_texts()
     seq = []
     for i, t in enumerate(texts):
         seq += [(i, t)] * 3
